@@ -261,7 +261,7 @@ func (c *Ctx) rulePanicInventory(rule string, reach map[*ssa.Function]bool, root
 					r.Ok(rule, key, c.exhaustiveDefault(pk, x, stack), where)
 				case c.enumRangeGuard(pk, stack) != "":
 					r.Ok(rule, key, c.enumRangeGuard(pk, stack), where)
-				case f.Pkg.PkgPath == prog.ModulePath+"/scanner" && (f.Obj.Name() == "peek" || f.Obj.Name() == "shiftFound"):
+				case f.Pkg.PkgPath == prog.ModulePath+"/scanner" && c.emptyQueueGuard(f, stack):
 					r.Ok(rule, key+" ("+recvName(f.Obj)+")", "unreachable: the automaton analysis shows no pop of an empty step stack, no unmatched End event and no read of an empty event queue (C01-PDS-UNDERFLOW)", where)
 				case c.panicOfDeadError(f, x) != "":
 					r.Ok(rule, key, c.panicOfDeadError(f, x), where)
@@ -339,6 +339,56 @@ func (c *Ctx) exhaustiveDefault(pk *packages.Package, call *ast.CallExpr, stack 
 		return c.switchExhaustive(pk, sw)
 	}
 	return ""
+}
+
+// emptyQueueGuard: a method of the scanner's event stack or of the Scanner itself panics under `if len(<its slice>) == 0`
+// (directly or through a local that holds the length): the "reading from empty stack / queue" guards, whose
+// unreachability is decided on the automaton (C01-PDS-UNDERFLOW) - whatever the method is called today.
+func (c *Ctx) emptyQueueGuard(f *Fn, stack []ast.Node) bool {
+	if f.Decl.Recv == nil {
+		return false
+	}
+	rt := namedType(derefType(f.Obj.Type().(*types.Signature).Recv().Type()))
+	if !strings.HasSuffix(rt, "scanner.eventStack") && !strings.HasSuffix(rt, "scanner.stepFuncStack") && !strings.HasSuffix(rt, "scanner.Scanner") {
+		return false
+	}
+	pk := f.Pkg
+	for i := len(stack) - 1; i >= 0; i-- {
+		ifs, ok := stack[i].(*ast.IfStmt)
+		if !ok {
+			continue
+		}
+		be, ok := ast.Unparen(ifs.Cond).(*ast.BinaryExpr)
+		if !ok {
+			return false
+		}
+		k, isK := constInt(pk, be.Y)
+		if !isK {
+			return false
+		}
+		base, off, ok := affineOf(f, be.X)
+		if !ok || base == nil {
+			return false
+		}
+		call, ok := ast.Unparen(base).(*ast.CallExpr)
+		if !ok || len(call.Args) != 1 || exprString(call.Fun) != "len" {
+			return false
+		}
+		if _, isSl := pk.TypesInfo.TypeOf(call.Args[0]).Underlying().(*types.Slice); !isSl {
+			return false
+		}
+		// len+off <op> k means len == 0 ?
+		switch be.Op {
+		case token.EQL:
+			return k-off == 0
+		case token.LSS:
+			return k-off == 1 // len < 1
+		case token.LEQ:
+			return k-off == 0
+		}
+		return false
+	}
+	return false
 }
 
 // enumRangeGuard: the panic is the body of `if int(e) >= N` (N a constant, e.g. the length of an array) where e has a
